@@ -617,6 +617,41 @@ pub fn check(property: &str, tier: Tier, base_seed: u64) -> i32 {
             "still_reproduces": reproduced}));
     }
 
+    // Phase B: the regression corpus - minimised histories of defects that were repaired
+    // (explicit operation lists, so they stay meaningful when the generators change).
+    // Each must hold the property now; one that fails again is reported like any violation.
+    let mut corpus_files = 0u64;
+    let mut corpus_failed = vec![];
+    {
+        let dir = Path::new(&verif_dir()).join("regressions").join(property);
+        let mut files: Vec<PathBuf> = std::fs::read_dir(&dir)
+            .map(|d| d.filter_map(|e| e.ok().map(|e| e.path())).filter(|p| p.extension().map(|x| x == "json").unwrap_or(false)).collect())
+            .unwrap_or_default();
+        files.sort();
+        let mut p: Option<Proc> = None;
+        for f in files {
+            let Ok(text) = std::fs::read_to_string(&f) else { continue };
+            let v: Value = serde_json::from_str(&text).unwrap_or(Value::Null);
+            let Some(sc) = v["scenario"].as_str().and_then(scenarios::get) else { continue };
+            corpus_files += 1;
+            let o = run_case(&mut p, sc.id(), &v["case"], false);
+            if let Some(x) = o.violations.iter().find(|x| x.oracle != "harness-panic" && x.oracle != "worker-died") {
+                if known.iter().any(|k| k.class == x.class) {
+                    *known_hits.entry(x.class.clone()).or_insert(0) += 1;
+                    continue;
+                }
+                println!("violation: scenario={} class={} regression-corpus :: {}", sc.id(), x.class, x.detail);
+                println!("VIOLATION property={} replay={}", property, f.display());
+                new_violations += 1;
+                exit = 1;
+                corpus_failed.push(json!({"class": x.class, "detail": x.detail, "replay": f.display().to_string()}));
+            }
+        }
+        if let Some(p) = p {
+            p.kill();
+        }
+    }
+
     for sc in scs {
         let info = sc.describe();
         let (runs, cap) = sc.budget(&tier);
@@ -812,6 +847,7 @@ pub fn check(property: &str, tier: Tier, base_seed: u64) -> i32 {
             "simulated_seconds": total_sim_ms as f64 / 1000.0,
             "parts": parts,
             "known_findings": kf_report,
+            "regression_corpus": {"files_replayed": corpus_files, "failed": corpus_failed},
             "known_finding_hits_in_search": known_hits,
             "workers": workers(),
         },
